@@ -355,6 +355,22 @@ def run(ctx):
                     continue
             impl[i] = r
             ctx.dist("translated-in-a-shared-context")
+    # exactly ONE misplaced object per document, of every kind of misplacement at several depths: such a document is never accepted silently
+    if not ctx.replay:
+        ones = []
+        for wrap in ("%s", "QGroupBox { %s }", "QTabWidget { QWidget { %s } }", "QVBoxLayout { QWidget { %s } }"):
+            for bad in ("QVBoxLayout { QSpacerItem { QLabel { id: inner } } }", "QAction { QLabel { } }", "QVBoxLayout { QAction { id: act } QLabel { } }", "QSpacerItem { }",
+                        "QVBoxLayout { QObject { } }", "QObject { }", "QAction { separator: true; QLabel { } }", "QGridLayout { QAction { separator: true } }",
+                        "QVBoxLayout { QSpacerItem { QAction { id: act } } }", "QFormLayout { QLabel { } QAction { } }", "QHBoxLayout { QSpacerItem { QVBoxLayout { } } }"):
+                ones.append("import qmluic.QtWidgets\nQWidget {\n  " + wrap % bad + "\n}\n")
+        for d, r in zip(ones, qml.run_docs(vh, ones)):
+            ctx.count(("single-misplacement", d), True)
+            ctx.dist("single-misplacement")
+            if not isinstance(r, dict) or "diags" not in r:
+                ctx.violation("building the form panics/crashes on a misplaced object: %r" % (str(r)[:200],), {"qml": d, "impl_output": str(r)[:500]})
+            elif not any(x["kind"] == "error" for x in r["diags"]):
+                ctx.violation("a document whose only flaw is one misplaced object (an object of a kind its parent cannot hold, or children below a leaf kind) is accepted without diagnostic",
+                              {"qml": d, "impl_output": r.get("ui"), "theorem_or_correspondence": "C11: element kind appropriate to the class, inside the parent's element / S"})
     terms, idx = [], []
     kinds_seen = {}
     for i, (t, r) in enumerate(zip(trees, impl)):
